@@ -14,7 +14,7 @@ META = {
    text="Exploration. TLC enumerates, for every length/count/type field of each wire grammar, the boundary values in every template-cache state reachable within the bound, and the real decode+marshal path is executed on every emitted history (plus seeded mutations of them) under recover/watchdog. Universal quantification over all byte strings is not enumerable, so this is not model checking of the code.",
    note="Trusts: the boundary sets cover the arithmetic of each guard; octet values outside the boundary/random sample are not explored."),
  "C02": dict(level="exploration", ref="6/C02",
-   technique="TLA+ decoder model with Progress/OutBounded/AllocBounded (TLC) + replay of boundary histories measuring records, allocation and time on the real decoders",
+   technique="TLA+ decoder model with Progress/OutBounded/AllocBounded (TLC) + replay of boundary histories measuring records, allocation and time on the real decoders; storm stage: real decoders side by side (unknown-template requests nobody serves, lookups that miss under writer pressure on two shards) must all return",
    text="Exploration, same generator as C01; per case the real decoder's record count, allocated bytes and wall time are measured against bounds linear in the datagram length.",
    note="Allocation is measured with runtime.MemStats deltas (coarse); bounds are 3 orders of magnitude above normal cost."),
  "C03": dict(level="model_checking", ref="6/C03",
@@ -22,7 +22,7 @@ META = {
    text="Model checking of the reference (round-trip theorem over a bounded-exhaustive structure space) plus conformance of the real decoder in both directions: every TLC-generated message is decoded by the real code and compared field by field, and seeded full-range messages decoded by the real code are validated line by line by TLC.",
    note="Structure is exhaustive within bounds, octet values are sampled. Trusted: the canonicaliser from Go values to (kind, octets)."),
  "C04": dict(level="model_checking", ref="6/C04",
-   technique="TLA+ TemplateCache sequential spec (LatestOwn) checked by TLC; every bounded history replayed through the real IPFIX and NetFlow v9 decode paths, incl. a hash-colliding exporter pair; random long histories validated as traces",
+   technique="TLA+ TemplateCache sequential spec (LatestOwn) checked by TLC; every bounded history replayed through the real IPFIX and NetFlow v9 decode paths, incl. a hash-colliding exporter pair; random long histories validated as traces; same-message histories behind 15-40 sets of unknown templates; 40 000 concurrent first announcements of a colliding pair",
    text="Model checking: TLC checks LatestOwn on all histories within the bound and each history is replayed against the real decoders (template announcements, re-announcements, data sets whose decode reveals the version used).",
    note="Exporter names are concretised by the harness (incl. an FNV-1 colliding pair found at run time)."),
  "C05": dict(level="exploration", ref="6/C05",
@@ -39,44 +39,44 @@ META = {
    technique="TLA+ NetFlow v5 spec; all counts x lengths enumerated by TLC and replayed; random contents validated by TLC (NetFlow5Trace); JSON addresses with boundary values in chosen positions; the real v5 workers in parallel under the race detector",
    text="As C03 for NetFlow v5; the count/length space is enumerated exhaustively.", note=""),
  "C09": dict(level="model_checking", ref="6/C09",
-   technique="TLA+ SkipTransparent/TruncationPrefix checked by TLC on the generator space; every insertion position/kind (incl. data before its template, templates whose lengths overflow 16 bits) and every truncation offset replayed on the real IPFIX and v9 decoders",
+   technique="TLA+ SkipTransparent/TruncationPrefix checked by TLC on the generator space; every insertion position/kind (incl. data before its template, templates whose lengths overflow 16 bits) and every truncation offset replayed on the real IPFIX and v9 decoders; reserved set whose body starts with a decodable set, cut at every offset",
    text="Model checking of the reference plus exhaustive replay of insertions and truncations of each generated message against the real decoders; the oracle is the property itself (prefix / neighbours unchanged).",
    note=""),
  "C10": dict(level="model_checking", ref="6/C10",
-   technique="TLA+ lock-protocol spec of the template cache (TLC: all interleavings); refusal probes at the lock boundaries (hooks); ungated -race stress of real decoders / Dump / peer Get on fresh and on reloaded (aged) caches; lock-boundary traces recorded through hooks validated by TLC (CacheTrace.tla)",
+   technique="TLA+ lock-protocol spec of the template cache (TLC: all interleavings); refusal probes at the lock boundaries (hooks); ungated -race stress of real decoders / Dump / peer Get on fresh and on reloaded (aged) caches; lock-boundary traces recorded through hooks validated by TLC (CacheTrace.tla); CacheLockOrder.tla (one shard lock at a time, writer-preferring RWMutex) bound by *Out hooks in CacheTrace.tla and discharged as an inductive invariant by Apalache (LockOrderApa.tla); dumps into one file (overtaken / quiescent: DumpCall, hist, DumpFinal)",
    text="Model checking of the lock protocol; conformance by schedule replay, refusal probes and trace validation.",
    note="Gates are hooks under build tag verif."),
  "C11": dict(level="model_checking", ref="6/C11",
-   technique="TLA+ persistence layer (Dump as prefix writes with Crash between any two, total Load) checked by TLC; every prefix of real dump files (holding colliding exporter pairs, options and full-range templates), structural mutations, hand edits inside templates and byte flips loaded by the real GetCache and then used for decoding",
+   technique="TLA+ persistence layer (Dump as prefix writes with Crash between any two, total Load) checked by TLC; every prefix of real dump files (holding colliding exporter pairs, options and full-range templates), structural mutations, hand edits inside templates and byte flips loaded by the real GetCache and then used for decoding; aged files (45 min .. decades), low template ids, a withdrawn template inside a probe chain, a variable-length template",
    text="Model checking of the persistence model and fault enumeration over every crash point of real cache files.",
    note=""),
  "C12": dict(level="model_checking", ref="6/C12",
-   technique="TLA+ Pipeline spec (PublishedIsOwn, NoUseAfterPut) by TLC; the real workers of the four protocols gate-scheduled through hooks with pool probes (mirroring off / on / mirror queue full), traces validated by TLC (PipelineTrace.tla); byte-for-byte comparison with the stand-alone decode; the same workers free-running in parallel under the race detector",
+   technique="TLA+ Pipeline spec (PublishedIsOwn, NoUseAfterPut) by TLC; the real workers of the four protocols gate-scheduled through hooks with pool probes (mirroring off / on / mirror queue full), traces validated by TLC (PipelineTrace.tla); byte-for-byte comparison with the stand-alone decode; the same workers free-running in parallel under the race detector; JSON size sweep at powers of two, producer queue full (MqCap in PipelineTrace), backlog mode, liveness (LiveSpec / Drains) by TLC",
    text="Model checking of the pipeline model; conformance by trace validation of the real workers.", note=""),
  "C13": dict(level="model_checking", ref="6/C13",
-   technique="TLA+ Pipeline spec (CountsExact, AtMostOnce, ExactlyOnceIfData) by TLC; traces and counters of the real workers validated",
+   technique="TLA+ Pipeline spec (CountsExact, AtMostOnce, ExactlyOnceIfData) by TLC; traces and counters of the real workers validated; Stats.tla / StatsTrace.tla: snapshots of the REST and Prometheus statistics polled from two running collectors validated by TLC; StatsApa.tla inductive by Apalache",
    text="Model checking of the accounting invariants; conformance by trace validation.", note=""),
  "C14": dict(level="model_checking", ref="6/C14",
-   technique="TLA+ Producer spec (Subsequence, NoDup, ByteExact, BoundedGap) by TLC over all fault scripts; every TLC-generated fault script (sink dies / restarts) and stall scenarios (sink stops reading, then resets or reads on) replayed into producer.RawSocket against real TCP / UDP sinks, sink logs validated by TLC (ProducerTrace.tla); Kafka at the sarama.AsyncProducer boundary (ProducerKafka.tla, scripted library that encodes late); NSQ with the real go-nsq client against a scripted nsqd (ProducerNSQ.tla); NATS with the real nats.go client against an embedded nats-server (ProducerNATS.tla)",
+   technique="TLA+ Producer spec (Subsequence, NoDup, ByteExact, BoundedGap) by TLC over all fault scripts; every TLC-generated fault script (sink dies / restarts) and stall scenarios (sink stops reading, then resets or reads on) replayed into producer.RawSocket against real TCP / UDP sinks, sink logs validated by TLC (ProducerTrace.tla); Kafka at the sarama.AsyncProducer boundary (ProducerKafka.tla, scripted library that encodes late); NSQ with the real go-nsq client against a scripted nsqd (ProducerNSQ.tla); NATS with the real nats.go client against an embedded nats-server (ProducerNATS.tla); ProducerKafkaChan.tla (channel structure: Progress needs the select) with a strict scripted library; a sink that is slow, not dead; a sink configured by name that moves (DNS inside the driver)",
    text="Model checking over fault sequences; replay of every TLC fault script into the real producer.", note=""),
  "C15": dict(level="model_checking", ref="6/C15",
-   technique="TLA+ Pipeline shutdown actions (NoSendOnClosed, AckedTemplatesSurvive) by TLC; the real run()+shutdown() with a full queue and stalled workers; end-to-end stop/start cycles of the built binary (idle / steady / burst / sustained traffic, wildcard and IPv4 bind) with signals at seeded offsets",
+   technique="TLA+ Pipeline shutdown actions (NoSendOnClosed, AckedTemplatesSurvive) by TLC; the real run()+shutdown() with a full queue and stalled workers; end-to-end stop/start cycles of the built binary (idle / steady / burst / sustained traffic, wildcard and IPv4 bind) with signals at seeded offsets; long silence before the signal, megabyte cache files, redefine-only and scope-only cycles with per-exporter definition check after restart, restart under load, a colliding loopback exporter whose predecessor withdraws",
    text="Model checking of the shutdown protocol plus end-to-end exploration.", note=""),
  "C16": dict(level="model_checking", ref="6/C16",
-   technique="TLA+ Mirror spec (Faithful for every payload length 0..MaxUDP, both address forms) by TLC; every length replayed through the real worker mirror branch, dispatcher and raw-socket mirror worker and captured on loopback; MirrorDispatch.tla (other-family flood); shutdown with mirroring enabled; the pipeline workers with mirroring on / mirror queue full validated by PipelineTrace.tla",
+   technique="TLA+ Mirror spec (Faithful for every payload length 0..MaxUDP, both address forms) by TLC; every length replayed through the real worker mirror branch, dispatcher and raw-socket mirror worker and captured on loopback; MirrorDispatch.tla (other-family flood); shutdown with mirroring enabled; the pipeline workers with mirroring on / mirror queue full validated by PipelineTrace.tla; max-udp-size 65535 (Lens), late-on mirroring, a worker waiting for the full mirror queue recognised, 3200 datagrams after the mirror worker has gone, backlog mode with mirror accounting, liveness with the mirror dead (MirrorBlocks refuted), Mirror6.tla (informational)",
    text="Model checking, exhaustive over lengths for small max-udp-size.", note=""),
  "C17": dict(level="model_checking", ref="6/C17",
-   technique="TLA+ Config spec (Effective = cli > file > env > default over all 8 source subsets) by TLC; every case replayed through the real flagSet for every option field, with -config before and after the other arguments",
+   technique="TLA+ Config spec (Effective = cli > file > env > default over all 8 source subsets) by TLC; every case replayed through the real flagSet for every option field, with -config before and after the other arguments; GetOptions() + SIGHUP: the options again after a reload; boolean spellings, range ends, address-like and YAML-like values",
    text="Model checking; the configuration space is finite and covered.", note=""),
  "C18": dict(level="model_checking", ref="6/C18",
    technique="TLA+ FilterTransparent by TLC on the sFlow generator space; datagrams x filter lists (incl. aliasing-prone unknown types) replayed on sflow.SFDecoder and validated by TLC; the real sFlow workers in parallel sharing one configured list",
    text="Model checking of the reference plus replay.", note=""),
  "C19": dict(level="model_checking", ref="6/C19",
-   technique="TLA+ Reader spec: TLC exhaustive over buffers <= MaxLen x all operation/argument transitions, one real test per transition; random recorded traces validated by TLC (ReaderTrace)",
+   technique="TLA+ Reader spec: TLC exhaustive over buffers <= MaxLen x all operation/argument transitions, one real test per transition; random recorded traces validated by TLC (ReaderTrace); reader traces over value classes (all ones, zeros, sign bit); a reader made after each decoder has handled datagrams starts from nothing; readers side by side under the race detector",
    text="Model checking: the reader's state space (buffer prefix, position) and every operation/argument transition is enumerated by TLC within the bound and each transition is executed on reader.Reader; recorded random traces of the real reader are validated against the same actions. The accounting invariant and the four action properties are checked on every transition.",
    note="Bound: buffers of length <= 9 (quick) / 12 (thorough) in the exhaustive part, <= 47 in traces; n >= 0."),
  "C20": dict(level="model_checking", ref="6/C20",
-   technique="TLA+ InfoModel spec: TLC evaluates TablesAgree/KeyedByOwnId/TypeRecognised/NoRetyping over dumps of the real built-in table and of the table after loading scripts/ipfix.elements; the same histories (every element) decoded with and without the file installed must give identical results",
+   technique="TLA+ InfoModel spec: TLC evaluates TablesAgree/KeyedByOwnId/TypeRecognised/NoRetyping over dumps of the real built-in table and of the table after loading scripts/ipfix.elements; the same histories (every element) decoded with and without the file installed must give identical results; what the real decoder makes of every element validated against the snapshot-typed reference collector, after RFC 5610 type-information records for every element",
    text="Model checking, exhaustive over the finite tables (every element of both).", note="The snapshot is the pinned tree's table (IANA registry not available offline)."),
 }
 
